@@ -29,12 +29,15 @@ use zipora::hash_map::{
 use zipora::memory::{SecureMemoryPool, SecurePoolConfig};
 
 const HEADER: &str = r#"From ZV.Common Require Import Base Run.
-From ZV.C06 Require Import Model ModelGold ModelEasy ModelIdx.
+From ZV.C06 Require Import Model ModelGold ModelEasy ModelIdx ModelFast.
 Open Scope N_scope.
 (* kind 0: standard storage [hasher mode; initial capacity; has_final; final capacity] [final slot-order iteration]
    kind 1: stub storage; kind 2: SmallMap;
    kind 4: EasyHashMap [initial capacity; auto_grow; max_load_factor numerator; denominator]
    kind 5: GoldHashIdx [requested capacity]
+   kind 6: standard storage under a hash function given as a table (String / typed keys: key numbers are the harness's
+           canonical numbering of the keys, the table holds what the cell's BuildHasher returns for each) [initial capacity] [hash table]
+   kind 7: SmallMap<u8> with get answered by get_fast (ModelFast.v)
    kind 3: GoldHashMap [initial capacity; cache; gc; reuse; has_final; final bucket count; final deleted count]
                        [final entry-order iteration; hash table; max_load table] *)
 Definition case_t : Type := N * list N * list (list (N * N)) * list op * list obs.
@@ -51,6 +54,8 @@ Definition ok (c : case_t) : bool :=
   | 1 => eqb_obss (stub_run ops) expect
   | 2 => eqb_obss (sm_run (hasher 0) (Small []) ops) expect
   | 5 => eqb_obss (irun (hasher 0) (iinit (pn ps 0)) ops) expect
+  | 6 => eqb_obss (run (assoc (tb ts 0) 0) (init (pn ps 0)) ops) expect
+  | 7 => eqb_obss (smf_run true (hasher 0) (Small []) ops) expect
   | 4 => let grow := fun l c => pn ps 2 * c <=? pn ps 3 * l in
          eqb_obss (easy_run (hasher 0) grow (negb (pn ps 1 =? 0)) (init (pn ps 0)) ops) expect
   | _ => let h := assoc (tb ts 1) 0 in
@@ -200,6 +205,10 @@ enum ModelDesc {
     Gold { cap0: u64, cache: bool, gc: bool, reuse: bool, lf: f32, collide: u64 },
     Easy { cap: u64, auto: bool, num: u64, den: u64 },
     Idx { cap: u64 },
+    /// standard storage, hash function as a table of what the cell's BuildHasher yields (String / typed keys)
+    StdTab { cap: u64 },
+    /// SmallMap<u8>: get goes through get_fast
+    SmallU8,
 }
 struct Cell { name: String, status: &'static str, model: Option<ModelDesc>, stub: bool, map: Box<dyn Mut> }
 
@@ -220,9 +229,12 @@ fn make_cell(family: &str, variant: u64, aux: u64) -> Cell {
             Cell { name: format!("ZiporaHashMap/{}", name), status: if stub { "finding" } else { "M+S" }, model, stub, map: Box::new(Zip::<U64, ModeBuild>(m, aux)) }
         }
         "zipstr" => {
-            let (name, cfg, _, stub) = zip_config(variant);
+            let (name, cfg, cap, stub) = zip_config(variant);
             let m = zipora::hash_map::ZiporaHashMap::<String, u64, ModeBuild>::with_config_and_hasher(cfg, ModeBuild(aux)).expect("with_config_and_hasher");
-            Cell { name: format!("ZiporaHashMap<String>/{}", name), status: if stub { "finding" } else { "S-only" }, model: None, stub, map: Box::new(ZipStr(m)) }
+            // the same generic code as the u64 cells, entered through the Borrow<str> lookups: the model runs on the key numbers
+            // with the hash function tabulated from the real BuildHasher on the real String keys
+            let model = if stub { Some(ModelDesc::Stub) } else { cap.map(|c| ModelDesc::StdTab { cap: c }) };
+            Cell { name: format!("ZiporaHashMap<String>/{}", name), status: if stub { "finding" } else { "M+S" }, model, stub, map: Box::new(ZipStr(m, aux)) }
         }
         "zipcap" => {
             // ZiporaHashMap::with_capacity(n) needs S: Default, i.e. hasher mode 0
@@ -292,7 +304,7 @@ fn make_cell(family: &str, variant: u64, aux: u64) -> Cell {
             let (_, twin, _) = mk(true);
             Cell { name: format!("GoldHashIdx/{}", name), status: "M+S", model: Some(ModelDesc::Idx { cap }), stub: false, map: Box::new(Idx::<CK>(m, aux, Some(twin))) }
         }
-        "small_u8" => Cell { name: "SmallMap<u8>/get_fast".into(), status: "S-only", model: None, stub: false, map: Box::new(SmU8(zipora::containers::specialized::SmallMap::new())) },
+        "small_u8" => Cell { name: "SmallMap<u8>/get_fast".into(), status: "M+S", model: Some(ModelDesc::SmallU8), stub: false, map: Box::new(SmU8(zipora::containers::specialized::SmallMap::new())) },
         "small" => {
             use zipora::containers::specialized::SmallMap as S;
             let m = if variant == 0 { S::new() } else { S::default() };
@@ -318,7 +330,10 @@ fn make_cell(family: &str, variant: u64, aux: u64) -> Cell {
         }
         "zip_t" | "gold_t" | "idx_t" | "small_t" | "easy_t" => {
             let (name, map) = typed_cell(family, variant, aux);
-            Cell { name, status: "S-only", model: None, stub: false, map }
+            // ZiporaHashMap over the rarely used key/value types: standard storage, default configuration (16 slots), the
+            // hash function tabulated per case; the other families stay oracle-only
+            if family == "zip_t" { Cell { name, status: "M+S", model: Some(ModelDesc::StdTab { cap: 16 }), stub: false, map } }
+            else { Cell { name, status: "S-only", model: None, stub: false, map } }
         }
         _ => {
             use zipora::containers::specialized::HashStrMap as H;
@@ -375,6 +390,8 @@ fn history(cx: &mut Ctx, family: &str, variant: u64, aux: u64, ops: &[(u64, u64,
     let mut shadow: BTreeMap<u64, u64> = BTreeMap::new();
     let mut obs: Vec<String> = vec![];      // observations as Coq terms (model comparison)
     let mut offered: Vec<bool> = vec![];    // operations the type does not offer are left out of the model comparison
+    let mut cops: Vec<(u64, u64, u64)> = vec![]; // the operations on the canonical key / value numbers (typed cells)
+    let mut khash: Vec<(u64, u64)> = vec![];     // canonical key -> what the cell's BuildHasher yields for it (table-driven model)
     let mut failure: Option<String> = None;
     let mut stub_like = true;               // every answer so far is what an empty map would say
     let mut maintained = false;             // a housekeeping operation (shrink_to_fit / reserve / revoke_deleted / clone ...) was executed
@@ -383,6 +400,8 @@ fn history(cx: &mut Ctx, family: &str, variant: u64, aux: u64, ops: &[(u64, u64,
         let m = &mut cell.map;
         // key and value in the canonical form of the cell's element types (u8 keys wrap at 256, () is a single key ...)
         let (k, v) = if c <= 4 || c == 12 { (m.canon_k(k0), if c == 0 || c == 3 || c == 12 { m.canon_v(v0) } else { v0 }) } else { (k0, v0) };
+        cops.push((c, k, v));
+        if c <= 4 { if let Some(hv) = m.key_hash(k0) { khash.push((k, hv)); } }
         let items: Vec<(u64, u64)> = if c == 10 { bulk_items(k0, v0).into_iter().map(|(a, b)| (m.canon_k(a), m.canon_v(b))).collect() } else { vec![] };
         let (rm, rr, radd) = (2 + k0 % 3, (k0 / 3) % (2 + k0 % 3), v0 % 2 == 1); // retain: keep the keys with key % rm != rr
         let step: Result<Option<(String, Option<String>)>, String> = guarded(|| {
@@ -503,6 +522,8 @@ fn history(cx: &mut Ctx, family: &str, variant: u64, aux: u64, ops: &[(u64, u64,
                 ModelDesc::Stub => (1, vec![], vec![]),
                 ModelDesc::Small => (2, vec![], vec![]),
                 ModelDesc::Idx { cap } => (5, vec![cap], vec![]),
+                ModelDesc::StdTab { cap } => { khash.sort(); khash.dedup(); (6, vec![cap], vec![kvs(&khash)]) }
+                ModelDesc::SmallU8 => (7, vec![], vec![]),
                 ModelDesc::Easy { cap, auto, num, den } => (4, vec![cap, auto as u64, num, den], vec![]),
                 ModelDesc::Gold { cap0, cache, gc, reuse, lf, collide } => {
                     let mut ks: Vec<u64> = ops[..n].iter().map(|o| o.1).collect(); ks.sort(); ks.dedup();
@@ -512,7 +533,9 @@ fn history(cx: &mut Ctx, family: &str, variant: u64, aux: u64, ops: &[(u64, u64,
                     (3, vec![cap0, cache as u64, gc as u64, reuse as u64, has, b, d], vec![kvs(&it), kvs(&hs), kvs(&ml)])
                 }
             };
-            let ops_coq: Vec<String> = ops[..n].iter().enumerate().filter(|(i, _)| offered[*i]).map(|(_, (c, k, v))| format!("({}, {}, {})", c, k, v)).collect();
+            // the new kinds run on the canonical numbers (u8 keys wrap at 256, String values are numbered ...)
+            let ops_src: &[(u64, u64, u64)] = if kind >= 6 { &cops[..n] } else { &ops[..n] };
+            let ops_coq: Vec<String> = ops_src.iter().enumerate().filter(|(i, _)| offered[*i]).map(|(_, (c, k, v))| format!("({}, {}, {})", c, k, v)).collect();
             let obs_coq: Vec<String> = obs[..n].iter().enumerate().filter(|(i, _)| offered[*i]).map(|(_, o)| o.clone()).collect();
             if !ops_coq.is_empty() {
                 let term = format!("({}, {}, [{}], [{}], [{}])", kind, coq_n_list(params.iter().map(|&x| x as u128)),
@@ -712,7 +735,7 @@ pub fn run(args: &Args) {
     let mut cx = Ctx {
         sum: Summary::new("C06", "operation histories (insert/remove/get/get_mut/contains_key/len/iter/clear, 3..100 ops plus a full read-back; the wide ones also housekeeping, Clone/PartialEq, bulk insertion, alternative lookups and iteration, get_or_insert, retain) over key universes of 3, 8, 40, 130 keys, marker-adjacent keys and one-home-slot keys, on every map type, constructor and preset; ZiporaHashMap under ten caller-supplied hashers (mixing, identity, constant 0, constant u64::MAX, mod 4, two keys on the markers, k<<60, MAX-(k mod 3), 16*(k mod 3), mod 2) and fourteen hash functions of hash_functions.rs, the other maps with collisions forced through the key's Hash impl; seven rarely used key/value type pairs; enumerated: every history of <= 5 (quick: 4/5) insert/remove/get steps over 3 colliding keys; described histories (tour / threshold sweep / fill past 2^16); each answer compared with a BTreeMap, iteration as a sorted list; non-trivial = history of >= 3 operations"),
         shards: CoqShards::new(HEADER, 150),
-        budget: if args.thorough { 9000 } else { 1200 },
+        budget: if args.thorough { 9000 } else { 1450 },
         strict: args.thorough,
     };
     let mut rng = Rng::new(args.seed);
@@ -766,12 +789,12 @@ pub fn run(args: &Args) {
             let mut ops: Vec<(u64, u64, u64)> = (0..fill).map(|i| (0, (base + i) % 256, 100 + i)).collect();
             for probe in [0u64, 255, 7, base, (base + fill) % 256, (base + 20) % 256] { ops.push((2, probe, 0)); }
             ops.push((5, 0, 0));
-            history(&mut cx, "small_u8", 0, 0, &ops, false, None);
+            history(&mut cx, "small_u8", 0, 0, &ops, true, None);
             if fill > 0 {
                 let mut ops2 = ops.clone();
                 ops2.push((1, base % 256, 0));
                 for probe in [0u64, 255, base, (base + 1) % 256] { ops2.push((2, probe, 0)); }
-                history(&mut cx, "small_u8", 0, 0, &ops2, false, None);
+                history(&mut cx, "small_u8", 0, 0, &ops2, base != 200, None);
             }
         }
     }
@@ -837,7 +860,7 @@ pub fn run(args: &Args) {
         }
         // the library's own hash functions as the caller-supplied hasher
         history(&mut cx, "zip", [0u64, 1, 9, 10][(i % 4) as usize], N_HASHERS + i % N_LIB_HASHERS, &ops, false, None);
-        for variant in [0u64, 1, 3, 9] { history(&mut cx, "zipstr", variant, rng.below(N_HASHERS), &ops, false, None); }
+        for variant in [0u64, 1, 3, 9] { history(&mut cx, "zipstr", variant, rng.below(N_HASHERS), &ops, room && (variant + i) % 4 == 1, None); }
         let n = *rng.pick(&[0u64, 1, 16, 17, 24, 31, 33, 64, 100]);
         history(&mut cx, "zipcap", n, 0, &ops, room, None);
         history(&mut cx, "zipctor", i % 4, 0, &ops, room && i % 4 == 1, None);
@@ -849,7 +872,7 @@ pub fn run(args: &Args) {
             history(&mut cx, "idx", variant, rng.below(4), &ops, room && (variant + i) % 3 == 0 && ops.len() <= 120, None);
         }
         history(&mut cx, "small", i % 2, rng.below(4), &ops, room, None);
-        if ops.iter().all(|o| o.1 < 256) { history(&mut cx, "small_u8", 0, 0, &ops, false, None); }
+        if ops.iter().all(|o| o.1 < 256) { history(&mut cx, "small_u8", 0, 0, &ops, room, None); }
         for variant in (0..EASY_CLASSIC).chain([EASY_CLASSIC + i % (EASY_VARIANTS - EASY_CLASSIC)]) {
             history(&mut cx, "easy", variant, rng.below(4), &ops, room && (variant + i) % 5 == 2 && ops.len() <= 120, None);
         }
@@ -858,7 +881,7 @@ pub fn run(args: &Args) {
         let ty = i % TYPES;
         for fam in ["zip_t", "gold_t", "idx_t", "small_t", "easy_t"] {
             if ty == 6 && ops.len() > 150 { continue; }
-            history(&mut cx, fam, ty, rng.below(N_HASHERS), &ops, false, None);
+            history(&mut cx, fam, ty, rng.below(N_HASHERS), &ops, room && fam == "zip_t" && i % 2 == 0, None);
         }
     }
     // large fills on every cell (one Coq evaluation of the smallest)
